@@ -1022,6 +1022,29 @@ _WAVE9 = {
 for _k, _t in _WAVE9.items():
     PROPERTIES[_k]['explanation'] = PROPERTIES[_k]['explanation'] + ' ' + _t
 
+_WAVE10 = {
+    'C02': "ENT1: in front of the call of the value parser the entry point gives up only for reasons that are not about the text (arguments, "
+           "memory) or that make the value unparsable too (nothing readable at the cursor; a byte there that opens no value). NUM5: a "
+           "hand-written `v = v * 10 + digit` in a double is bounded to 15 digits by the loop's own tests (none on the pinned tree).",
+    'C04': "NUM5 (see C02): what is printed with 17 digits reads back as the same double only through a correctly rounding conversion. "
+           "TAB5b's verbatim clause is about bytes above 0x7F only: an ASCII byte may be escaped, its spelling is judged.",
+    'C05': "OUT3: where a caller measures what was printed with update_offset, every successful return leaves a terminator at or behind "
+           "the offset, whether or not the function accounted for its own text.",
+    'C07': "DEL1 follows both outcomes of a test of a counter (a recursion budget) for every kind of node: whatever a node owns is "
+           "released on either.",
+    'C09': "OUT3 (see C05).",
+    'C10': "ENT1 (see C02). TAB4 takes the bytes demanded in front of a literal from the bounds analysis when the guard is not "
+           "spelled offset + S <= length.",
+    'C12': "SHP5 stays inside the property's domain: objects whose keys fall together after case folding are not compared without "
+           "regard to case (what the lookups do with them is C06's business, SHP3).",
+}
+for _k, _t in _WAVE10.items():
+    PROPERTIES[_k]['explanation'] = PROPERTIES[_k]['explanation'] + ' ' + _t
+for _k in ('C15', 'C16', 'C17'):
+    PROPERTIES[_k]['not_decided'] = list(PROPERTIES[_k]['not_decided']) + [
+        'a decoder of ~0/~1 that is not byte-by-byte (strchr + memmove): TAB9 ends at exit 2 on it, for the defective and the repaired '
+        'variant alike (seed s10_C17)']
+
 def claimed():
     return sorted(PROPERTIES)
 
